@@ -4,6 +4,8 @@ package c14
 
 import (
 	"bytes"
+	"crypto/x509/pkix"
+	"encoding/asn1"
 	"fmt"
 	"math/big"
 
@@ -65,7 +67,11 @@ func wrongSecret(b *built, s cspec, variant int) ([]byte, bool) {
 func checkRT(c rtCase, r *h.Rec) error {
 	b := build(c.cspec)
 	labelCommon(c.cspec, b, r)
-	r.Label(wrongNames[c.Wrong])
+	if c.Cont == "env" {
+		r.Label([]string{"right", "wrong-unwrap-key-bitflip", "wrong-unwrap-key-unrelated", "wrong-unwrap-key-is-enveloped-key", "wrong-n/a"}[c.Wrong])
+	} else {
+		r.Label(wrongNames[c.Wrong])
+	}
 	r.NTIf(b.auth != authNone || b.ki.nt || c.Wrong > 0)
 	if b.ki.nt {
 		r.Label("edge-or-leading-zero-scalar")
@@ -81,6 +87,9 @@ func checkRT(c rtCase, r *h.Rec) error {
 		}
 		if !bytes.Equal(blob, b.blob) {
 			return fmt.Errorf("%s: decoder modified its input", c.label())
+		}
+		if err := formatCheck(c.cspec, b); err != nil {
+			return fmt.Errorf("%s (key class %s): the encoding does not carry the key in its prescribed form: %v; container %s", c.label(), c.Key, err, h.Hex(b.blob))
 		}
 		return publicPart(c.cspec, b, got)
 	}
@@ -285,39 +294,63 @@ func checkAlter(c altCase, r *h.Rec) error {
 	} else if level >= lvEqual {
 		return fmt.Errorf("%s: the altered container decoded to ANOTHER key without error: %v", desc(), same)
 	}
-	if err := validKey(got); err != nil {
+	if err := validKey(got, h.Thorough() || (c.Pos+c.Val)%3 == 0); err != nil {
 		return fmt.Errorf("%s: the altered container decoded to an invalid key without error: %v", desc(), err)
 	}
 	r.Label("alter:accepted-other-valid-key(no-redundancy)")
 	return nil
 }
 
-// kdfCostTooHigh reports whether the AlgorithmIdentifier of an (altered)
-// EncryptedPrivateKeyInfo carries a positive INTEGER above 4096 (iteration
-// count, scrypt N/r/p).
+// kdfCostTooHigh reports whether an (altered) EncryptedPrivateKeyInfo makes
+// the library run a password KDF with a huge cost parameter. It decodes the
+// parameters with encoding/asn1 into structures of the same shape as the
+// library's (so it sees the numbers the library will see - encoding/asn1
+// ignores trailing bytes inside a SEQUENCE, a tree parser does not).
 func kdfCostTooHigh(blob []byte) bool {
-	root, err := parseDER(blob)
-	if err != nil || len(root.kids) == 0 {
-		return false // the library's strict DER parser refuses it before any KDF runs
+	var epki struct {
+		Alg  pkix.AlgorithmIdentifier
+		Data []byte
 	}
-	high := false
-	var walk func(n *tlv)
-	walk = func(n *tlv) {
-		if n.tag == 0x02 && n.kids == nil {
-			c := n.content()
-			if len(c) > 0 && c[0]&0x80 == 0 {
-				v := new(big.Int).SetBytes(c)
-				if v.BitLen() > 12 {
-					high = true
-				}
+	if _, err := asn1.Unmarshal(blob, &epki); err != nil {
+		return false // refused before any KDF runs
+	}
+	high := func(v ...int) bool {
+		for _, x := range v {
+			if x > 4096 {
+				return true
 			}
 		}
-		for _, k := range n.kids {
-			walk(k)
-		}
+		return false
 	}
-	walk(root.kid(0))
-	return high
+	var pbe struct {
+		Salt      []byte
+		Iteration int
+	}
+	if _, err := asn1.Unmarshal(epki.Alg.Parameters.FullBytes, &pbe); err == nil && high(pbe.Iteration) {
+		return true
+	}
+	var p2 struct{ KDF, Enc pkix.AlgorithmIdentifier }
+	if _, err := asn1.Unmarshal(epki.Alg.Parameters.FullBytes, &p2); err != nil {
+		return false
+	}
+	var pb struct {
+		Salt           []byte
+		IterationCount int
+		KeyLen         int                      `asn1:"optional"`
+		PRF            pkix.AlgorithmIdentifier `asn1:"optional"`
+	}
+	if _, err := asn1.Unmarshal(p2.KDF.Parameters.FullBytes, &pb); err == nil && high(pb.IterationCount) {
+		return true
+	}
+	var sc struct {
+		Salt    []byte
+		N, R, P int
+		KeyLen  int `asn1:"optional"`
+	}
+	if _, err := asn1.Unmarshal(p2.KDF.Parameters.FullBytes, &sc); err == nil && high(sc.N, sc.R, sc.P) {
+		return true
+	}
+	return false
 }
 
 // emitAlterations enumerates every byte position of the container with the
